@@ -7,3 +7,6 @@ import "reflect"
 // verifPoint marks a synchronisation point of Feed (see zz_verif_hooks.go).
 // Without the `verif` build tag it is an empty, inlinable stub.
 func verifPoint(f *Feed, point string, ch reflect.Value) {}
+
+// verifMuxPoint marks a synchronisation point of TypeMux (see zz_verif_hooks.go).
+func verifMuxPoint(mux *TypeMux, point string, s *TypeMuxSubscription, typ reflect.Type) {}
